@@ -1,6 +1,7 @@
 package refsql
 
 import (
+	"errors"
 	"database/sql"
 	"fmt"
 	"strings"
@@ -59,7 +60,11 @@ func (s *Store) Get(key string) ([]byte, error) {
 	row := s.db.QueryRow(`SELECT sum FROM refs WHERE name = ?`, key)
 	sum := make([]byte, 16)
 	if err := row.Scan(&sum); err != nil {
-		return nil, ref.ErrKeyNotFound
+		if errors.Is(err, sql.ErrNoRows) {
+			return nil, ref.ErrKeyNotFound
+		}
+		// a database that cannot be read is not a ref that does not exist
+		return nil, err
 	}
 	return sum, nil
 }
@@ -69,6 +74,9 @@ func (s *Store) SetWithLog(key string, sum []byte, rl *ref.Reflog) error {
 		row := tx.QueryRow(`SELECT sum FROM refs WHERE name = ?`, key)
 		oldSum := make([]byte, 16)
 		if err := row.Scan(&oldSum); err != nil {
+			if !errors.Is(err, sql.ErrNoRows) {
+				return err
+			}
 			oldSum = nil
 		}
 		if _, err := tx.Exec(
@@ -215,7 +223,7 @@ func (s *Store) LogReader(key string) (ref.ReflogReader, error) {
 	row := s.db.QueryRow(`SELECT COUNT(*) FROM reflogs WHERE ref = ?`, key)
 	var c int
 	if err := row.Scan(&c); err != nil {
-		return &ReflogReader{}, nil
+		return nil, err
 	}
 	if c == 0 {
 		return nil, ref.ErrKeyNotFound
